@@ -3,7 +3,8 @@
    Part 2: capability keys are injective for attribute names shorter than 10^39 bytes (cap_key_inj).
    Part 3: the schema-level descendant search finds every type-level path (is_descendant_ty_complete, reusing the DFS proof of
            SchemaResolveProofs); run-time ancestors have ancestor types (reach_types); `in` on typed operands (do_in_total, do_in_false);
-           the store hypothesis actions_closed.
+           completeness of the action-graph search (is_action_ty_desc_complete);
+           the hypotheses agraph_wf / actions_conform / store_types_known (in_hyps).
    Part 4: schema_wf / tenv_wf; attribute lookup (get_attr_typed), `has` (has_attr_typed), tags (get_tag_typed, has_tags_false).
    Part 5: extension calls (call_ext_sound). *)
 From Coq Require Import ZArith List Bool String Lia Relations Arith.
@@ -579,38 +580,278 @@ Section DescC.
     apply (SRP.is_descendant_correct_gen tparents anc _ _ _ _ E). exact Hp.
   Qed.
 
-  (* The store hypothesis `in` needs.  entity_ok constrains the parents of an entity whose type is declared (parent types are declared
-     parent types) or enumerated (no parents), but not of the others.  Validator.Entity rejects entities of unknown types, so "neither
-     declared nor enumerated" means: an ACTION entity.  The type checker types `a in b` as False when no type-level path leads from
-     a's type to b's; for an action-typed `a` that does not syntactically denote an action (TUnk otherwise) this is only right if
-     action groups have the same entity type as their members: *)
-  Definition actions_closed (st : store) : Prop :=
-    forall u e p, lookup st u = Some e -> entity_of sch (fst u) = None -> smem (fst u) (ts_enums sch) = false ->
-      In p (e_parents e) -> fst p = fst u.
+  (* ---------- the action graph ---------- *)
+  Definition ap_go (u : uid) : list (uid * list uid) -> option (list uid) :=
+    fix go (l : list (uid * list uid)) : option (list uid) :=
+      match l with [] => None | (a, ps) :: r => if uid_eqb a u then Some ps else go r end.
+  Lemma aparents_eq u : aparents sch u = ap_go u (ts_agraph sch).
+  Proof. reflexivity. Qed.
 
-  Lemma reach_types st a b : store_ok sch st -> actions_closed st -> reach_st st a b ->
-    fst a = fst b \/ clos_trans _ tedge (fst a) (fst b).
+  Lemma aparents_In u ps : aparents sch u = Some ps -> In (u, ps) (ts_agraph sch).
   Proof.
-    intros Hst Hup Hr. induction Hr as [|y z Hr IH He]; [left; reflexivity|].
+    rewrite aparents_eq. induction (ts_agraph sch) as [|[a qs] r IH]; cbn [ap_go]; [discriminate|].
+    destruct (uid_eqb a u) eqn:E.
+    - apply uid_eqb_eq in E. subst a. intros H. inversion H; subst. left; reflexivity.
+    - intros H. right. apply IH, H.
+  Qed.
+
+  (* direct membership edge of the schema's action graph, and its transitive closure *)
+  Definition aedge (u p : uid) : Prop := exists ps, aparents sch u = Some ps /\ In p ps.
+  Definition aclosure : uid -> uid -> Prop := clos_trans uid aedge.
+
+  Definition akeys : list uid := map fst (ts_agraph sch).
+
+  Lemma aedge_key u p : aedge u p -> In u akeys.
+  Proof. intros (ps & H & _). apply aparents_In in H. unfold akeys. apply in_map_iff. exists (u, ps). auto. Qed.
+
+  Lemma aclosure_first u p : aclosure u p -> exists z, aedge u z.
+  Proof. intros H. induction H as [x y H|x y z _ IH1 _ _]; [eauto | exact IH1]. Qed.
+
+  Lemma aclosure_last u p : aclosure u p -> exists w, aedge w p.
+  Proof. intros H. induction H as [x y H|x y z _ _ _ IH2]; [eauto | exact IH2]. Qed.
+
+  Lemma umem_In u l : umem u l = true <-> In u l.
+  Proof.
+    unfold umem. rewrite existsb_exists. split.
+    - intros (y & Hy & E). apply uid_eqb_eq in E. subst. exact Hy.
+    - intros H. exists u. split; [exact H | apply uid_eqb_refl].
+  Qed.
+
+  Definition awgo (f : nat) (anc : str) : list uid -> list uid -> bool * list uid :=
+    fix go (ps : list uid) (vis : list uid) : bool * list uid :=
+      match ps with
+      | [] => (false, vis)
+      | p :: r => if str_eqb (fst p) anc then (true, vis)
+                  else let '(b, v) := awalk sch f p anc vis in if b then (true, v) else go r v
+      end.
+  Lemma awalk_S f u anc vis :
+    awalk sch (S f) u anc vis =
+    if umem u vis then (false, vis) else
+    match aparents sch u with None => (false, u :: vis) | Some ps => awgo f anc ps (u :: vis) end.
+  Proof. reflexivity. Qed.
+
+  Definition aunv (vis : list uid) : nat := List.length (filter (fun k => negb (umem k vis)) akeys).
+
+  Lemma aunv_mono v v' : incl v v' -> (aunv v' <= aunv v)%nat.
+  Proof.
+    intros H. apply SRP.filter_length_mono. intros x _ Hx.
+    destruct (umem x v) eqn:E; [|reflexivity]. apply umem_In in E. apply H in E. apply umem_In in E. rewrite E in Hx. discriminate.
+  Qed.
+
+  Section AWalk.
+    Variable anc : str.
+    (* the nodes added by a search that answered false are fully explored: all their parents are visited and none has type anc *)
+    Definition aexplored (V V' : list uid) : Prop :=
+      incl V V' /\ forall x, In x V' -> ~ In x V -> forall p, aedge x p -> fst p <> anc /\ In p V'.
+
+    Lemma aexplored_refl V : aexplored V V.
+    Proof. split; [apply incl_refl|]. intros x H1 H2. contradiction. Qed.
+
+    Lemma uid_dec (x y : uid) : {x = y} + {x <> y}.
+    Proof. destruct (uid_eqb x y) eqn:E; [left; apply uid_eqb_eq, E | right; intros ->; rewrite uid_eqb_refl in E; discriminate]. Qed.
+
+    Lemma aexplored_trans A B C : aexplored A B -> aexplored B C -> aexplored A C.
+    Proof.
+      intros [I1 E1] [I2 E2]. split; [eapply incl_tran; eauto|].
+      intros x HxC HxA p Hp.
+      destruct (in_dec uid_dec x B) as [HB|HB].
+      - destruct (E1 x HB HxA p Hp) as [Hne Hin]. split; [exact Hne | apply I2, Hin].
+      - apply (E2 x HxC HB p Hp).
+    Qed.
+
+    Lemma awalk_false : forall fuel u V V', (aunv V + 1 <= fuel)%nat -> awalk sch fuel u anc V = (false, V') ->
+      aexplored V V' /\ In u V'.
+    Proof.
+      induction fuel as [|f IH]; intros u V V' Hf H; [lia|].
+      rewrite awalk_S in H. destruct (umem u V) eqn:Em.
+      - inversion H; subst. split; [apply aexplored_refl | apply umem_In, Em].
+      - destruct (aparents sch u) as [ps|] eqn:Ep.
+        + assert (Hkey : In u akeys) by (apply aparents_In in Ep; unfold akeys; apply in_map_iff; exists (u, ps); auto).
+          assert (Hlt : (aunv (u :: V) < aunv V)%nat).
+          { apply (SRP.filter_length_strict _ _ _ u); auto.
+            - intros x _ Hx. destruct (umem x V) eqn:E; [|reflexivity].
+              apply umem_In in E. assert (E' : umem x (u :: V) = true) by (apply umem_In; right; exact E).
+              rewrite E' in Hx. discriminate.
+            - rewrite Em. reflexivity.
+            - assert (E' : umem u (u :: V) = true) by (apply umem_In; left; reflexivity). rewrite E'. reflexivity. }
+          assert (G : forall qs v, (aunv v + 1 <= f)%nat -> awgo f anc qs v = (false, V') ->
+                        aexplored v V' /\ forall p, In p qs -> fst p <> anc /\ In p V').
+          { induction qs as [|q r IHr]; intros v Hv Hg; cbn [awgo] in Hg.
+            - inversion Hg; subst. split; [apply aexplored_refl | intros p []].
+            - destruct (str_eqb (fst q) anc) eqn:Eq; [discriminate|]. apply str_eqb_neq in Eq.
+              destruct (awalk sch f q anc v) as [[|] v1] eqn:E; [discriminate|].
+              destruct (IH _ _ _ Hv E) as [Ex1 Hp1].
+              destruct (IHr v1) as [Ex2 Hr]; [pose proof (aunv_mono _ _ (proj1 Ex1)); lia | exact Hg |].
+              split; [eapply aexplored_trans; eauto|].
+              intros p [<-|Hp]; [|apply Hr, Hp]. split; [exact Eq | apply (proj1 Ex2), Hp1]. }
+          destruct (G ps (u :: V) ltac:(lia) H) as [[I1 E1] Hps].
+          assert (Hc : In u V') by (apply I1; left; reflexivity).
+          split; [|exact Hc]. split.
+          * intros x Hx. apply I1. right; exact Hx.
+          * intros x HxV' HxV p (qs & Hq & Hp).
+            destruct (uid_dec x u) as [->|Hne].
+            -- rewrite Ep in Hq. inversion Hq; subst qs. apply Hps, Hp.
+            -- apply (E1 x HxV'); [|exists qs; auto]. intros [X|X]; [congruence | contradiction].
+        + inversion H; subst. split; [|left; reflexivity]. split; [intros x Hx; right; exact Hx|].
+          intros x [<-|Hx] Hn p (qs & Hq & _); [congruence | contradiction].
+    Qed.
+
+    (* closed visited sets: every visited node has all its parents visited, none of type anc *)
+    Definition aclosed (V : list uid) : Prop := forall x, In x V -> forall p, aedge x p -> fst p <> anc /\ In p V.
+
+    Lemma aclosed_explored V V' : aclosed V -> aexplored V V' -> aclosed V'.
+    Proof.
+      intros Hc [I E] x Hx p Hp. destruct (in_dec uid_dec x V) as [HV|HV].
+      - destruct (Hc x HV p Hp) as [H1 H2]. split; [exact H1 | apply I, H2].
+      - apply (E x Hx HV p Hp).
+    Qed.
+
+    Lemma aclosed_no_anc V u p : aclosed V -> In u V -> aclosure u p -> fst p <> anc.
+    Proof.
+      intros Hc Hu Hp.
+      assert (G : forall x y, clos_trans uid aedge x y -> In x V -> In y V /\ fst y <> anc).
+      { intros x y X. induction X as [x y X | x y z _ IH1 _ IH2]; intros Hx.
+        - destruct (Hc x Hx y X) as [Hne Hy]. split; assumption.
+        - apply IH2. apply (IH1 Hx). }
+      apply (G _ _ Hp Hu).
+    Qed.
+
+    Definition ogo (child : str) : list (uid * list uid) -> list uid -> bool * list uid :=
+      fix go (l : list (uid * list uid)) (vis : list uid) : bool * list uid :=
+        match l with
+        | [] => (false, vis)
+        | (a, _) :: r => if str_eqb (fst a) child
+                         then let '(b, v) := awalk sch (S (List.length (ts_agraph sch))) a anc vis in if b then (true, v) else go r v
+                         else go r vis
+        end.
+
+    Lemma aunv_le V : (aunv V + 1 <= S (List.length (ts_agraph sch)))%nat.
+    Proof.
+      pose proof (SRP.filter_length_le (fun k => negb (umem k V)) akeys) as H. unfold aunv. unfold akeys in *. rewrite map_length in H. lia.
+    Qed.
+
+    Lemma ogo_false child : forall l V V', aclosed V -> ogo child l V = (false, V') ->
+      aclosed V' /\ incl V V' /\ forall a ps, In (a, ps) l -> fst a = child -> In a V'.
+    Proof.
+      induction l as [|[a qs] r IH]; intros V V' Hc H; cbn [ogo] in H.
+      - inversion H; subst. split; [exact Hc|]. split; [apply incl_refl | intros a ps []].
+      - destruct (str_eqb (fst a) child) eqn:Ea.
+        + destruct (awalk sch (S (List.length (ts_agraph sch))) a anc V) as [[|] v1] eqn:E; [discriminate|].
+          destruct (awalk_false _ _ _ _ (aunv_le V) E) as [Ex Ha].
+          destruct (IH _ _ (aclosed_explored _ _ Hc Ex) H) as (Hc' & I' & Hall).
+          split; [exact Hc'|]. split; [eapply incl_tran; [exact (proj1 Ex) | exact I']|].
+          intros a' ps [X|X] Hty; [inversion X; subst a'; apply I', Ha | eapply Hall; eauto].
+        + destruct (IH _ _ Hc H) as (Hc' & I' & Hall). split; [exact Hc'|]. split; [exact I'|].
+          intros a' ps [X|X] Hty; [|eapply Hall; eauto]. inversion X; subst a'. subst child. rewrite str_eqb_refl in Ea. discriminate.
+    Qed.
+  End AWalk.
+
+  Lemma is_action_ty_desc_eq child anc :
+    is_action_ty_desc sch child anc = is_action_type child && is_action_type anc && fst (ogo anc child (ts_agraph sch) []).
+  Proof. reflexivity. Qed.
+
+  (* completeness of isActionTypeDescendant: a path in the action graph is always found *)
+  Theorem is_action_ty_desc_complete u p : aclosure u p -> is_action_type (fst u) = true -> is_action_type (fst p) = true ->
+    is_action_ty_desc sch (fst u) (fst p) = true.
+  Proof.
+    intros Hp Hu Hpt. rewrite is_action_ty_desc_eq, Hu, Hpt. cbn [andb].
+    destruct (ogo (fst p) (fst u) (ts_agraph sch) []) as [[|] V'] eqn:E; [reflexivity|]. exfalso.
+    destruct (ogo_false (fst p) (fst u) _ _ _ (fun x (Hx : In x []) => match Hx with end) E) as (Hc & _ & Hall).
+    destruct (aclosure_first _ _ Hp) as (z & ps & Hz & _). apply aparents_In in Hz.
+    apply (aclosed_no_anc (fst p) V' u p Hc (Hall _ _ Hz eq_refl) Hp). reflexivity.
+  Qed.
+
+  (* ---------- hypotheses about actions ---------- *)
+  (* Well-formedness of the schema's action graph and of the action entity types:
+     (a) every declared action has an action entity type (resolveActions builds the uid with qualifyActionType), and every listed
+         parent is itself a declared action (validateActionMembership: "undefined parent action");
+     (b) an action entity type is neither a declared nor an enumerated entity type (Cedar reserves the type name Action; Go's
+         Validator.Entity tests isActionEntity FIRST, so for such a name entity_ok and the Go code would disagree anyway);
+     (c) no declared entity type lists an action entity type among its parent types (memberOfTypes are entity types; with (b) this is
+         "every parent type is declared or enumerated"). *)
+  Definition agraph_wf : Prop :=
+    (forall a ps, In (a, ps) (ts_agraph sch) -> is_action_type (fst a) = true /\ forall p, In p ps -> In p akeys) /\
+    (forall n, is_action_type n = true -> entity_of sch n = None /\ smem n (ts_enums sch) = false) /\
+    (forall n te p, entity_of sch n = Some te -> In p (te_parents te) -> is_action_type p = false).
+
+  (* What validateActionEntity (x/exp/schema/validate/entity.go) establishes for an action entity of the store: the action is declared,
+     and its parents are exactly the transitive closure of its declared groups - here only "are in the closure" is needed. *)
+  Definition actions_conform (st : store) : Prop :=
+    forall u e, lookup st u = Some e -> is_action_type (fst u) = true -> entity_of sch (fst u) = None -> smem (fst u) (ts_enums sch) = false ->
+      exists ps, aparents sch u = Some ps /\ forall p, In p (e_parents e) -> aclosure u p.
+
+  (* Validator.Entity rejects an entity whose type is neither an action type, nor declared, nor enumerated ("entity type not found in
+     schema"); entity_ok does not say it *)
+  Definition store_types_known (st : store) : Prop :=
+    forall u e, lookup st u = Some e ->
+      entity_of sch (fst u) <> None \/ smem (fst u) (ts_enums sch) = true \/ is_action_type (fst u) = true.
+
+  (* everything the `in` case needs beyond env_ok *)
+  Definition in_hyps (st : store) : Prop := agraph_wf /\ actions_conform st /\ store_types_known st.
+
+  Lemma akey_action u : agraph_wf -> In u akeys -> is_action_type (fst u) = true.
+  Proof.
+    intros (Ha & _) Hk. unfold akeys in Hk. apply in_map_iff in Hk. destruct Hk as ([a ps] & <- & Hin). apply (Ha _ _ Hin).
+  Qed.
+
+  Lemma aedge_target_action u p : agraph_wf -> aedge u p -> is_action_type (fst p) = true.
+  Proof.
+    intros Hw (ps & Hps & Hp). apply akey_action; [exact Hw|]. destruct Hw as (Ha & _). apply aparents_In in Hps. apply (Ha _ _ Hps), Hp.
+  Qed.
+
+  Lemma tedge_last x y : clos_trans _ tedge x y -> exists w, tedge w y.
+  Proof. intros H. induction H as [x y H|x y z _ _ _ IH2]; [eauto | exact IH2]. Qed.
+
+  (* every store ancestor of an entity: same entity, or a type-level path, or a path in the action graph *)
+  Lemma reach_types st a b : store_ok sch st -> in_hyps st -> reach_st st a b ->
+    a = b \/ clos_trans _ tedge (fst a) (fst b) \/ aclosure a b.
+  Proof.
+    intros Hst (Hw & Hac & Hk) Hr. induction Hr as [|y z Hr IH He]; [left; reflexivity|].
     destruct He as (ps & Hps & Hz). unfold parents_of in Hps.
     destruct (lookup st y) as [e|] eqn:El; [|discriminate]. cbn in Hps. inversion Hps; subst ps.
-    pose proof (Hst _ _ El) as Hok. unfold entity_ok in Hok.
+    pose proof (Hst _ _ El) as Hok. unfold entity_ok in Hok. right.
     destruct (alookup (fst y) (ts_entities sch)) as [te|] eqn:Et.
     - destruct Hok as (_ & _ & Hpar). specialize (Hpar _ Hz).
       assert (Hedge : tedge (fst y) (fst z)).
       { unfold tedge, tparents, entity_of. rewrite Et. exact Hpar. }
-      right. destruct IH as [->|IH]; [apply t_step; exact Hedge | eapply t_trans; [exact IH | apply t_step; exact Hedge]].
+      destruct IH as [->|[IH|IH]].
+      + left. apply t_step; exact Hedge.
+      + left. eapply t_trans; [exact IH | apply t_step; exact Hedge].
+      + exfalso. destruct (aclosure_last _ _ IH) as (w & Hwy). pose proof (aedge_target_action _ _ Hw Hwy) as Hy.
+        destruct Hw as (_ & Hb & _). destruct (Hb _ Hy) as [Hn _]. unfold entity_of in Hn. congruence.
     - destruct Hok as (_ & _ & Henum). destruct (smem (fst y) (ts_enums sch)) eqn:Es.
       + rewrite (Henum eq_refl) in Hz. destruct Hz.
-      + rewrite (Hup _ _ _ El Et Es Hz). exact IH.
+      + assert (Hy : is_action_type (fst y) = true).
+        { destruct (Hk _ _ El) as [H|[H|H]]; [unfold entity_of in H; congruence | congruence | exact H]. }
+        destruct (Hac _ _ El Hy Et Es) as (qs & _ & Hcl). specialize (Hcl _ Hz).
+        destruct IH as [->|[IH|IH]].
+        * right. exact Hcl.
+        * exfalso. destruct (tedge_last _ _ IH) as (w & Hwy). unfold tedge, tparents in Hwy.
+          destruct (entity_of sch w) as [tw|] eqn:Ew; [|destruct Hwy].
+          destruct Hw as (_ & _ & Hc). rewrite (Hc _ _ _ Ew Hwy) in Hy. discriminate.
+        * right. eapply t_trans; eauto.
   Qed.
 
-  Lemma any_descendant_complete ll r lt rt : In lt ll -> In rt r -> (lt = rt \/ clos_trans _ tedge lt rt) ->
+  Lemma any_descendant_complete ll r lt rt : In lt ll -> In rt r ->
+    (lt = rt \/ clos_trans _ tedge lt rt \/ is_action_ty_desc sch lt rt = true) ->
     any_descendant sch ll r = true.
   Proof.
     intros Hl Hr H. unfold any_descendant. apply existsb_exists. exists lt. split; [exact Hl|].
-    apply existsb_exists. exists rt. split; [exact Hr|]. apply orb_true_iff.
-    destruct H as [->|H]; [left; apply str_eqb_refl | right; apply is_descendant_ty_complete, H].
+    apply existsb_exists. exists rt. split; [exact Hr|].
+    destruct H as [->|[H|H]].
+    - rewrite str_eqb_refl. reflexivity.
+    - rewrite (is_descendant_ty_complete _ _ H). apply orb_true_iff. left. apply orb_true_r.
+    - rewrite H. apply orb_true_r.
+  Qed.
+
+  Lemma reach_any_descendant st a b ll r : store_ok sch st -> in_hyps st -> reach_st st a b -> In (fst a) ll -> In (fst b) r ->
+    any_descendant sch ll r = true.
+  Proof.
+    intros Hst Hh Hr Hl Hrr. apply (any_descendant_complete ll r (fst a) (fst b) Hl Hrr).
+    destruct (reach_types st a b Hst Hh Hr) as [->|[H|H]]; [left; reflexivity | right; left; exact H|].
+    right. right. destruct Hh as (Hw & _). apply is_action_ty_desc_complete; [exact H | |].
+    - destruct (aclosure_first _ _ H) as (z & Hz). apply akey_action; [exact Hw | eapply aedge_key; eauto].
+    - destruct (aclosure_last _ _ H) as (w & Hwb). eapply aedge_target_action; eauto.
   Qed.
 End DescC.
 
@@ -645,23 +886,22 @@ Qed.
 
 (* typed CFalse: no type-level relation between the operand types *)
 Lemma do_in_false sch st t i w ll rt r :
-  store_ok sch st -> actions_closed sch st -> In t ll ->
+  store_ok sch st -> in_hyps sch st -> In t ll ->
   (rt = CEnt r \/ rt = CSet (CEnt r)) -> vtyped w rt -> any_descendant sch ll r = false ->
   do_in st (t, i) w = Ok (VBool false).
 Proof.
   intros Hst Hup Ht Hrt Hw Hany.
   destruct Hrt as [-> | ->].
-  - inversion Hw; subst. cbn [do_in]. destruct (eval_in_one_correct st (t, i) (t0, i0)) as (b & E & Hiff). rewrite E.
+  - destruct (vtyped_ent_inv _ _ Hw) as (t0 & i0 & -> & H1). cbn [do_in].
+    destruct (eval_in_one_correct st (t, i) (t0, i0)) as (b & E & Hiff). rewrite E.
     destruct b; [|reflexivity]. exfalso.
     assert (Hr : reach_st st (t, i) (t0, i0)) by (apply Hiff; reflexivity).
-    apply (reach_types sch) in Hr; auto. cbn [fst] in Hr.
-    rewrite (any_descendant_complete sch ll r t t0 Ht H1 Hr) in Hany. discriminate.
-  - inversion Hw; subst. destruct (all_entities_typed _ _ H1) as (us & E & F). cbn [do_in]. rewrite E.
+    rewrite (reach_any_descendant sch st _ _ ll r Hst Hup Hr Ht H1) in Hany. discriminate.
+  - destruct (vtyped_set_inv' _ _ Hw) as (l & -> & H1). destruct (all_entities_typed _ _ H1) as (us & E & F). cbn [do_in]. rewrite E.
     destruct (eval_in_set_correct st (t, i) us) as (b & E2 & Hiff). rewrite E2.
     destruct b; [|reflexivity]. exfalso.
     destruct (proj1 Hiff eq_refl) as (u' & Hu' & Hr). rewrite Forall_forall in F. specialize (F _ Hu').
-    apply (reach_types sch) in Hr; auto. cbn [fst] in Hr.
-    rewrite (any_descendant_complete sch ll r t (fst u') Ht F Hr) in Hany. discriminate.
+    rewrite (reach_any_descendant sch st _ _ ll r Hst Hup Hr Ht F) in Hany. discriminate.
 Qed.
 
 (* ------------------------------------------------------------------ *)
